@@ -325,8 +325,10 @@ var codeShapes = []string{
 	`{{define "q"}}{{if .F}}"></a><a href="/x/{{end}}{{end}}<a href="/x/{{template "q" .}}{{.V}}"></a><a href="{{template "q" .}}{{.V}}">`,
 	`{{define "q"}}"{{end}}<link rel="icon{{template "q"}} href="{{.V}}"><link rel="stylesheet{{template "q"}} href="{{.V}}">`,
 	`{{define "h"}}type="b"{{end}}<script type="b" {{template "h"}}></script>{{if .C}}<script type="text/plain" {{template "h"}}>{{else}}<script type="b">{{end}}{{.V}}</script>`,
-	// K-mangle: a helper with an action, called inside the still open rel value of two links
+	// (former K-mangle case, F-openprefix) a helper with an action, called inside the still open rel value of two links
 	`{{define "hq"}}" href="{{.V}}{{end}}<link rel="icon{{template "hq" .}}"><link rel="stylesheet{{template "hq" .}}">`,
+	// text after a template node continues the name of an END tag (F-endtagname)
+	`<bdi>a</b{{if .C}}data-x="@@"{{end}}di>`, `<button {{range .L2}}data-x="@@"></b{{end}}utton>`, `<bdi>a</b{{if .F}}z{{end}}data-x="@@">`,
 	// "/" and "=" in an end tag: what the engine reads as a quoted value is not one for a browser
 	`<a>x</a /="><img title=" data-x="@@">`, `<p>x</p /="><script>" data-x="@@">`,
 	// a DOCTYPE ends at its first '>'
@@ -498,9 +500,6 @@ func checkCode(c CodeCase) evid.Outcome {
 		}
 		if c.Wrap == "htmlfunc" {
 			v.Finding = "K-funcsoverride"
-		}
-		if strings.Contains(c.Shape, `rel="icon{{template "hq"`) {
-			v.Finding = "K-mangle"
 		}
 		return v
 	}
@@ -796,7 +795,7 @@ type SetCase struct {
 }
 
 func genSet(t *rapid.T) SetCase {
-	return SetCase{*hist.Gen(t, hist.Options{MaxOps: 10, BadMembers: rapid.Bool().Draw(t, "bad"), RuntimeBad: true, Unbalanced: true, Markers: true, ParseAfter: true, Clones: rapid.IntRange(0, 3).Draw(t, "clones") == 0})}
+	return SetCase{*hist.Gen(t, hist.Options{MaxOps: 10, MixedHelpers: rapid.Bool().Draw(t, "mixedh"), BadMembers: rapid.Bool().Draw(t, "bad"), RuntimeBad: true, Unbalanced: true, Markers: true, ParseAfter: true, Clones: rapid.IntRange(0, 3).Draw(t, "clones") == 0})}
 }
 
 func checkSet(c SetCase) evid.Outcome {
